@@ -19,7 +19,11 @@ MUTATORS = {"append", "extend", "insert", "remove", "pop", "clear", "sort", "rev
 LIBRARY_MUTATORS = {"random.shuffle": 0, "heapq.heappush": 0, "heapq.heappop": 0, "heapq.heapify": 0, "heapq.heapreplace": 0,
                     "bisect.insort": 0, "bisect.insort_left": 0, "bisect.insort_right": 0, "list.sort": 0, "list.append": 0,
                     "list.remove": 0, "list.reverse": 0, "list.extend": 0, "list.insert": 0, "list.pop": 0, "list.clear": 0,
-                    "dict.update": 0, "dict.pop": 0, "dict.setdefault": 0, "dict.clear": 0, "set.add": 0, "set.discard": 0, "set.update": 0}
+                    "dict.update": 0, "dict.pop": 0, "dict.setdefault": 0, "dict.clear": 0, "set.add": 0, "set.discard": 0, "set.update": 0,
+                    "operator.iconcat": 0, "operator.iadd": 0, "operator.imul": 0, "operator.setitem": 0, "operator.delitem": 0,
+                    "operator.ior": 0, "operator.iand": 0, "operator.isub": 0, "operator.__iadd__": 0, "operator.__iconcat__": 0,
+                    "operator.__setitem__": 0, "operator.__delitem__": 0}
+IN_PLACE_FOLDERS = {k for k in LIBRARY_MUTATORS if k.startswith("operator.")} | {"list.extend", "list.append", "set.update", "set.add", "dict.update"}
 PURE_BUILTINS = {"len", "abs", "round", "isinstance", "str", "int", "float", "bool", "range", "print",
                  "sum", "repr", "type", "ValueError", "TypeError", "KeyError", "hash", "id", "any", "all",
                  "set" }
@@ -186,6 +190,12 @@ class PointsTo:
                 if isinstance(n, ast.Call) and isinstance(n.func, ast.Attribute) and n.func.attr in MUTATORS:
                     if not self.cg.resolve(n, f):
                         self.effects.append(Effect(f, n, n.func.attr, n.func.value))
+                if isinstance(n, ast.Call) and call_name(n) in ("functools.reduce", "reduce") and len(n.args) >= 2 and \
+                        self._folder_name(n.args[0], f) in IN_PLACE_FOLDERS:
+                    # reduce(operator.iconcat, xs[, start]) grows its accumulator in place: the start value, or - without one - xs[0]
+                    acc = n.args[2] if len(n.args) > 2 else ast.copy_location(ast.Subscript(value=n.args[1], slice=ast.Constant(0), ctx=ast.Load()), n.args[1])
+                    ast.fix_missing_locations(acc)
+                    self.effects.append(Effect(f, n, "reduce(%s)" % self._folder_name(n.args[0], f), acc))
                 if isinstance(n, ast.Call) and call_name(n) in LIBRARY_MUTATORS and len(n.args) > LIBRARY_MUTATORS[call_name(n)]:
                     self.effects.append(Effect(f, n, call_name(n), n.args[LIBRARY_MUTATORS[call_name(n)]]))
                 elif isinstance(n, ast.Assign):
@@ -200,6 +210,15 @@ class PointsTo:
                     for t in n.targets:
                         if isinstance(t, ast.Subscript):
                             self.effects.append(Effect(f, n, "__delitem__", t.value))
+
+    def _folder_name(self, e, f):
+        """dotted name of a folding function given as an expression (operator.iconcat, or `from operator import iconcat`)"""
+        name = attr_path(e)
+        if not name:
+            return None
+        if "." not in name and name in f.mod.imports and f.mod.imports[name][0] in ("operator", "operator.py") and f.mod.imports[name][1]:
+            name = "operator." + f.mod.imports[name][1]
+        return name
 
     def _target_effects(self, f, stmt, t):
         if isinstance(t, ast.Subscript):
